@@ -39,6 +39,11 @@ NoModes == {}
 \* ---- two names, two draws (thorough)
 Names2 == {"a", "b"}
 NameSeq2 == <<"", "a", "b", "temp_1", "temp_2">>
+NameSeq2m == <<"", "a", "b", "temp_1">>
+Msgs2m == {M("join", "a"), M("leave", "a"), M("join", "b"), M("joinp", "b"), M("leave", "b"), M("leave", "temp_1"),
+           G("new", 1, 0), M("invite", "a"), G("invite", 1, 0), M("say", "a"), M("say", "b"), M("test", "-")}
+Batches2m == Singles(Msgs2m)
+Watched2m == {"a", "temp_1"}
 Draws2 == {1, 2}
 Msgs2 == {M("join", "a"), M("joinp", "a"), M("leave", "a"), M("join", "b"), M("leave", "b"), M("leave", "temp_1"),
           G("new", 1, 0), G("new", 2, 0), M("invite", "a"), G("invite", 2, 0), M("invitex", "b"),
